@@ -42,6 +42,25 @@ def run(prop, tier, seed, workdir):
     for p in (pairs if tier != "quick" else rnd.sample(pairs, 600)):
         strings.append(p)
         strings.append([p[0], 0x0323, p[1]])
+    # aliases of composing pairs in the other planes: the (starter, mark) tables are indexed by plane / row / cell and their
+    # lists hold 16-bit or 32-bit second characters, so a character that shares the low 16 bits (or the low 8 / the middle 8)
+    # with the second or first character of a composing pair must not compose (U+0041 U+10300 is not U+00C0)
+    def alias_ok(c):
+        return 0 < c < 0x110000 and not 0xD800 <= c <= 0xDFFF and assigned(c)
+    nalias = 0
+    for p in pairs:
+        cands = []
+        for k in range(1, 17):
+            cands.append([p[0], (p[1] + 0x10000 * k) % 0x110000])
+            cands.append([(p[0] + 0x10000 * k) % 0x110000, p[1]])
+        cands.append([p[0], p[1] ^ 0x100]); cands.append([p[0] ^ 0x100, p[1]])
+        cands.append([p[0], p[1] ^ 0x1000]); cands.append([p[0] ^ 0x1000, p[1]])
+        cands = [c for c in cands if alias_ok(c[0]) and alias_ok(c[1]) and c != p]
+        if tier == "quick" and len(cands) > 2:
+            cands = rnd.sample(cands, 2)
+        for c in cands:
+            strings.append(c)
+            nalias += 1
     # Hangul
     for _ in range(200 if tier == "quick" else 3000):
         l, v, t = 0x1100 + rnd.randint(0, 18), 0x1161 + rnd.randint(0, 20), 0x11A7 + rnd.randint(0, 27)
@@ -179,7 +198,7 @@ def run(prop, tier, seed, workdir):
         distinct_nontrivial=len({tuple(m[3]) for m in meta.values() if m[0] == "n"}),
         rule="Norm.tla: TLC checks idempotence, NFD(NFC(s)) = NFD(s), NFC(NFD(s)) = NFC(s) and the length bounds on the UAX #15 definitions for all strings "
              "of length <= %d over 15 critical code points; executions: every code point with a canonical mapping or a combining class singly, composing "
-             "(starter, mark) pairs alone and with an interposed ccc-220 mark, Hangul L/V/T and syllables, seeded random starter+marks strings of length <= 12 "
+             "(starter, mark) pairs alone and with an interposed ccc-220 mark, aliases of the composing pairs in the other planes / rows (same low 16 bits, one bit of the row changed: must not compose), Hangul L/V/T and syllables, seeded random starter+marks strings of length <= 12 "
              "(incl. > 10 marks), a seeded sample (thorough: all) of the other assigned code points, out-of-range and surrogate values, NFD and NFC, dmax "
              "from the documented minimum / exact fit to ample, each successful result normalized again; fold: iswfc vs towfc_s vs wcsfc_s for %d code "
              "points; wcsfc_s on strings of characters folding to 1-4 elements for every dmax from 1 to ample (terminated, inside dmax, no longer than the characters alone, cleared and reported once on failure, success with the documented room). TraceNorm.tla compares with NFD/NFC of NormDefs.tla (tables from python3 unicodedata 14.0). non-trivial = distinct input strings" % (
